@@ -280,9 +280,14 @@ def shipped(ctx):
         d = VERIF / ".work" / f"c19_{os.getpid()}"
         d.mkdir(parents=True, exist_ok=True)
         p = str(d / "e.yaml")
-        with quiet():
-            e.save_to_config(p)
-            back = type(e).load_from_config(p)
+        try:
+            with quiet():
+                e.save_to_config(p)              # the same path for every member: each save replaces the previous file
+                back = type(e).load_from_config(p)
+        except Exception as ex:
+            ctx.violation(f"C19 violated: enum member {e}, saved to a path that held another member's file, cannot be loaded: {type(ex).__name__}: {str(ex)[:120]}",
+                          {"enum": str(e)}, key={"kind": "enum"})
+            break
         if back.name != e.name or type(back) is not type(e):
             ctx.violation(f"C19 violated: enum {e} loads back as {back}", {"enum": str(e)}, key={"kind": "enum"})
         ctx.count("enum_members")
@@ -411,9 +416,14 @@ def int_named_groups(ctx):
             if settings(got) != settings(want):
                 ctx.violation(f"C19 violated: class groups {what} differ from the same groups named by strings", inp, key={"kind": "int-named-groups"})
                 continue
-            with quiet():
-                got.save_to_config(p)
-                back = impl.SegmentationClassGroups.load_from_config(p)
+            try:
+                with quiet():
+                    got.save_to_config(p)
+                    back = impl.SegmentationClassGroups.load_from_config(p)
+            except Exception as e:
+                ctx.violation(f"C19 violated: class groups {what}, saved to a path that already held a configuration, cannot be loaded: {type(e).__name__}: {str(e)[:120]}", inp,
+                              key={"kind": "int-named-groups"})
+                continue
             if settings(back) != settings(want):
                 ctx.violation(f"C19 violated: class groups {what} do not survive saving and loading", inp, key={"kind": "int-named-groups"})
     finally:
